@@ -125,7 +125,7 @@ PLANR = dict(name='prepareRunPlan validated (random graphs up to 60 commits)', p
 
 PROPS = {
     'C01': dict(corr=[GS, RT, BD, DAG]),
-    'C02': dict(corr=[PLAN4, PLAN5, PLAN6, PLANR]),
+    'C02': dict(level='translation_validation', corr=[PLAN4, PLAN5, PLAN6, PLANR]),
     'C03': dict(corr=[FU]),
     'C04': dict(corr=[GC, PLAN5, PLANR]),
     'C05': dict(corr=[RB, RBQ, RBC]),
@@ -133,7 +133,7 @@ PROPS = {
     'C07': dict(corr=[MG, DAG]),
     'C08': dict(corr=[DAG, RBC]),
     'C09': dict(corr=[RUN, HB]),
-    'C10': dict(corr=[RES]),
+    'C10': dict(level='translation_validation', corr=[RES]),
     'C11': dict(corr=[LN]),
     'C12': dict(corr=[LN, RUN]),
     'C13': dict(corr=[RN]),
